@@ -18,7 +18,7 @@ def handle (line : String) : String :=
   | "disc" :: op :: args => Andes.Discrete.handleDisc op args
   | "slv" :: args => Andes.SolverCache.handleSlv args | "pfs" :: args => Andes.SolverCache.handlePfs args | "tdi" :: args => Andes.SolverCache.handleTdi args
   | "island" :: args => Andes.Island.handleIsland args
-  | "eigas" :: args => Andes.Eig.handleAs args | "eigst" :: args => Andes.Eig.handleSt args | "eigpf" :: args => Andes.Eig.handlePf args | "eigam" :: args => Andes.Eig.handleAm args
+  | "eigas" :: args => Andes.Eig.handleAs args | "eigst" :: args => Andes.Eig.handleSt args | "eigpf" :: args => Andes.Eig.handlePf args | "eigam" :: args => Andes.Eig.handleAm args | "eigsw" :: args => Andes.Eig.handleSw args
   | _ => "bad-op"
 
 partial def loop (h : IO.FS.Stream) : IO Unit := do
